@@ -329,6 +329,23 @@ pub fn cells(tier: &str) -> Vec<Cell> {
     v
 }
 
+fn run_cancel_slice(tier: &str) -> Result<Value, String> {
+    let bin = std::env::var("MEMBOUND_IDX_BIN").map_err(|_| "MEMBOUND_IDX_BIN not set (run through bin/check)".to_string())?;
+    let mut c = std::process::Command::new(&bin);
+    c.env("MEMBOUND_ONLY", "cancel").env("ASAN_OPTIONS", "detect_leaks=0:abort_on_error=0:halt_on_error=1").env_remove("LD_PRELOAD");
+    if tier == "thorough" {
+        c.env("MEMBOUND_THOROUGH", "1");
+    }
+    let out = c.output().map_err(|e| format!("cannot run {bin}: {e}"))?;
+    let stdout = String::from_utf8_lossy(&out.stdout);
+    let line = stdout.lines().rev().find(|l| l.starts_with('{')).ok_or_else(|| format!("no result line; exit {:?}; stderr: {}", out.status.code(), String::from_utf8_lossy(&out.stderr).chars().take(600).collect::<String>()))?;
+    let v: Value = serde_json::from_str(line).map_err(|e| format!("bad result: {e}"))?;
+    match out.status.code() {
+        Some(0) | Some(3) => Ok(v),
+        other => Err(format!("exit {other:?}; stderr: {}", String::from_utf8_lossy(&out.stderr).chars().take(600).collect::<String>())),
+    }
+}
+
 pub fn run(tier: &str, replay: Option<&str>) -> i32 {
     if replay.is_some() {
         println!("C16 replay files name the grid cell; re-run bin/check C16");
@@ -359,9 +376,27 @@ pub fn run(tier: &str, replay: Option<&str>) -> i32 {
         }
         table.push(json!({"cell": o.cell, "recall": o.recalls}));
     }
-    ev.set("evaluations", searches);
+    // determinism after a CANCELLED search (hook-enabled ASan binary, see membound/idx): for every
+    // cancellation point of every search of a small grid, the same query repeated right after
+    // the cancelled one on the same thread must return the baseline answer
+    let mut cancelled_searches = 0u64;
+    match run_cancel_slice(tier) {
+        Ok(v) => {
+            cancelled_searches = v["cancelled_searches"].as_u64().unwrap_or(0);
+            ev.set("cancellation_points_enumerated", v["cancel_points"].clone());
+            ev.set("cancelled_searches_followed_by_two_repeats", v["cancelled_searches"].clone());
+            if let Some(d) = v["repeat_after_cancel_differs"].as_array().and_then(|a| a.first()) {
+                rep.report("C16|repeat-search-after-a-cancelled-search-returns-different-results", json!({"engine":"membound-idx","check":"C16","slice":"cancel","detail":d}));
+            }
+        }
+        Err(e) => {
+            eprintln!("C16: machinery error in the cancellation slice: {e}");
+            return 2;
+        }
+    }
+    ev.set("evaluations", searches + cancelled_searches);
     ev.set("distinct_nontrivial", outs.iter().map(|o| o.recalls.len() as u64).sum::<u64>());
-    ev.set("rule", format!("fixed grid, fixed seeds: family {{uniform sphere, Gaussian clusters, low-dimensional manifold, tight, well separated Gaussian clusters with cluster-major document ids (graph built cluster by cluster, sizes above the 1024-vector exhaustive-ef regime)}} x metric x dimension x size ({} cells) x build route {{online inserts in a seeded shuffled arrival order, bulk build (id order), 60 % delete + forced tombstone compaction, snapshot + recovery rebuild, and the heavy-delete route BEFORE compaction with 30 % / 45 % / 60 % of the slots tombstoned}}, 200 queries each at the default index parameters; recall@10 against an f64 brute force must be >= 0.80, the recall of two routes of one cell must not differ by more than 0.10, and every query repeated from another thread must return bit-identical distances and the same documents except among exactly tied distances. distinct_nontrivial = (cell, route) pairs built and measured", cs.len()));
+    ev.set("rule", format!("fixed grid, fixed seeds: family {{uniform sphere, Gaussian clusters, low-dimensional manifold, tight, well separated Gaussian clusters with cluster-major document ids (graph built cluster by cluster, sizes above the 1024-vector exhaustive-ef regime)}} x metric x dimension x size ({} cells) x build route {{online inserts in a seeded shuffled arrival order, bulk build (id order), 60 % delete + forced tombstone compaction, snapshot + recovery rebuild, and the heavy-delete route BEFORE compaction with 30 % / 45 % / 60 % of the slots tombstoned}}, 200 queries each at the default index parameters; recall@10 against an f64 brute force must be >= 0.80, the recall of two routes of one cell must not differ by more than 0.10, and every query repeated from another thread must return bit-identical distances and the same documents except among exactly tied distances; and (cancellation slice, --cfg kyrodb_verif hook) for every cancellation point of every search of a small index grid, the query repeated twice right after the cancelled search on the same thread returns exactly the baseline answer. distinct_nontrivial = (cell, route) pairs built and measured", cs.len()));
     ev.set("samples", json!(table.iter().take(3).collect::<Vec<_>>()));
     ev.set("exhaustive", true);
     ev.set("grid_cells", cs.len() as u64);
